@@ -174,6 +174,25 @@ func main() {
 			}
 		}
 		fmt.Println("evals", evals)
+	case "digest":
+		// determinism self-test: a full, order-sensitive digest of N cases of one batch. Two processes with the
+		// same arguments must print identical output whatever GOMAXPROCS is.
+		fs := flag.NewFlagSet("digest", flag.ExitOnError)
+		prop := fs.String("prop", "C07", "")
+		tier := fs.String("tier", "quick", "")
+		seed := fs.Uint64("seed", 1, "")
+		n := fs.Int64("n", 24, "")
+		fs.Parse(os.Args[2:])
+		installLoader()
+		log.SetOutput(io.Discard)
+		for i := int64(0); i < *n; i++ {
+			c := genCase(*prop, *tier, *seed, i)
+			cb, _ := json.Marshal(c)
+			v := execCase(c)
+			v.Case = nil
+			vb, _ := json.Marshal(v)
+			fmt.Printf("%d case=%016x verdict=%016x steps=%d evals=%d failures=%d\n", i, fnv64(cb), fnv64(vb), v.Steps, v.Evals, len(v.Failures))
+		}
 	case "show":
 		// debugging aid: run the first schedule of a flatten replay and print outcome + output
 		installLoader()
